@@ -384,15 +384,16 @@ class _INSIntegralState(_BaseNSIntegralState):
             the evidence.
         """
         n = self._n
+        if log_evidence:
+            # sigma[ln Z] = |sigma[Z] / Z|, computed from the ratios Z_i / Z
+            # so that it is finite when exp(ln Z) under- or overflows
+            ratio = np.exp(self._weights - self.logZ, dtype=np.longdouble)
+            return float(np.sqrt(np.sum((ratio - 1) ** 2) / (n * (n - 1))))
         Z_hat = np.exp(self.logZ, dtype=np.longdouble)
         Z = np.exp(self._weights, dtype=np.longdouble)
         # Standard error sqrt(Var[Z] / n)
         u = np.sqrt(np.sum((Z - Z_hat) ** 2) / (n * (n - 1)))
-        if log_evidence:
-            # sigma[ln Z] = |sigma[Z] / Z|
-            return float(np.abs(u / Z_hat))
-        else:
-            return u
+        return u
 
 
 def log_evidence_from_ins_samples(samples: np.ndarray) -> float:
